@@ -36,7 +36,10 @@ func verifSharedConfig(withInfo bool) *nfpm.Config {
 	if withInfo {
 		c1.FileInfo = &files.ContentFileInfo{Mode: 0o750}
 	}
+	f3 := models.AddFile("/src/f3", []byte("R"), 0o644, mt)
 	cfg.Contents = files.Contents{
+		{Source: f3, Destination: "/usr/share/doc/tool/README.rpm", Packager: "rpm"},
+		{Source: f3, Destination: "/usr/share/doc/tool/README.deb", Packager: "deb"},
 		c1,
 		{Source: f2, Destination: "/etc/tool.conf", Type: files.TypeConfig, FileInfo: &files.ContentFileInfo{Owner: "own"}},
 		{Destination: "/var/lib/tool", Type: files.TypeDir, FileInfo: &files.ContentFileInfo{}},
